@@ -255,6 +255,19 @@ fn register<C: Config>(e: &mut Engine<C>, w: &Arc<World>) {
     e.register_executor::<Ext, _>(ex);
 }
 
+/// in-memory engine that yields to the runtime at every query (many suspension points: C05)
+pub async fn open_mem_yielding(w: &Arc<World>) -> Arc<Engine<MemCfg>> {
+    use qbice::engine::{EngineOptions, YieldFrequency};
+    let mut e = Engine::<MemCfg>::new_with_options()
+        .serialization_plugin(Plugin::default())
+        .storage_engine_factory(InMemoryStorageEngineFactory)
+        .stable_hasher(SeededStableHasherBuilder::<Sip128Hasher>::new(0))
+        .options(EngineOptions::builder().yield_frequency(YieldFrequency::EveryNQuery(0)).build())
+        .build().await.unwrap();
+    register(&mut e, w);
+    Arc::new(e)
+}
+
 pub async fn open_mem(w: &Arc<World>) -> Arc<Engine<MemCfg>> {
     let mut e = Engine::<MemCfg>::new_with(Plugin::default(), InMemoryStorageEngineFactory, SeededStableHasherBuilder::<Sip128Hasher>::new(0)).await.unwrap();
     register(&mut e, w);
